@@ -77,3 +77,7 @@ add("C09", "exploration", "bounded exhaustive enumeration of recipient keys x se
     "Full product of 12 recipient scalars (1, 2, n-2, n-1, appnote keys, seed-derived) x 5 session-key classes x selectors 0..3 x 2 encryptor forms: the block must have the stated shape, a valid ephemeral point, and the session key must be recovered without the library (OpenSSL pkeyutl -derive, SHA-256, reference AES-CBC); default recipients per selector with pinned digests of the published keys; invalid ephemeral points must be refused.",
     "OpenSSL CLI and reference AES/EC trusted; ephemeral randomness comes from the os.urandom seam.",
     "E1", "DESIGN.md 4/C09")
+add("C19", "exploration", "bounded exhaustive enumeration of curves x keys x encodings with OpenSSL in the loop, plus exhaustive truncation/extension/byte-mutation of every valid encoding",
+    "All 17 curves x 7 keys (edge scalars, leading-zero coordinates and scalars) x every private/public DER, PEM and point-string form are encoded, decoded and parsed by OpenSSL; OpenSSL-written keys in 8 forms are decoded and canonical forms re-encoded byte-identically; the P-256 27-byte header assumption is checked; EVERY proper prefix and one-byte extension of every valid encoding must be rejected and EVERY position x 5 mutation classes must decode or raise a documented error (quick: 6 curves, thorough: all 17).",
+    "OpenSSL 3 CLI trusted; documented decoder errors = UnexpectedDER, MalformedPointError, UnknownCurveError, ValueError, RuntimeError.",
+    "E1+E3", "DESIGN.md 4/C19")
